@@ -27,6 +27,12 @@ public:
    basic_ofstream& operator<<(const std::string& s) { vfs_write(mH, s.data(), s.size()); return *this; }
    basic_ofstream& operator<<(const char* s) { vfs_write(mH, s, __builtin_strlen(s)); return *this; }
    basic_ofstream& operator<<(std::ostream& (*)(std::ostream&)) { vfs_write(mH, "\n", 1); return *this; }   // std::endl
+   basic_ofstream& operator<<(char c) { vfs_write(mH, &c, 1); return *this; }
+   basic_ofstream& put(char c) { vfs_write(mH, &c, 1); return *this; }
+   basic_ofstream& write(const char* p, std::streamsize n) { if (n > 0) vfs_write(mH, p, (unsigned long) n); return *this; }
+   basic_ofstream& flush() { return *this; }                 // the model has no buffer: every write is in the file at once
+   bool good() const { return mH >= 0; }
+   bool fail() const { return mH < 0; }
 private:
    int mH = -1;
 };
